@@ -30,20 +30,11 @@ def unq(t):
 REGRESS_FIXED = [b'env', b'pkg-add', b'cvs', b'patch', b'obj', b'mount', b'umount', b'revert', b'pkg-del', b'dmesg', b'end']
 
 
-def propose(res, pid, f):
-    """an oracle failure of a defect class that was reported but may not be in known_findings.json yet: it counts as
-    an oracle failure once the entry exists, until then it is recorded in the evidence only"""
-    if common.match_known(pid, f['signature']):
-        res.oracle_failures.append(f)
-    else:
-        res.extra.setdefault('proposed_findings', {}).setdefault(f['signature'], f['what'])
-        res.count('proposed finding, not in known_findings.json yet: ' + f['signature'])
-
-
 def configured(mode, ents):
-    """what the generator configured, for the oracle: (name, runs in parallel) in order, and the global switch"""
+    """what the generator configured, for the oracle: (name, runs in parallel) in order, and the global switch;
+    for canvas also the command of every step (the last one given), as written"""
     gpar = True
-    cfgd = []
+    cfgd, cmds = [], []
     nopar = {unq(e[1]) for e in ents if mode == 'robsd-regress' and e[0] == b'regress' and b'no-parallel' in e[2:]}
     for e in ents:
         if mode == 'robsd-regress' and e[0] == b'parallel' and len(e) > 1:
@@ -52,7 +43,59 @@ def configured(mode, ents):
             cfgd.append((unq(e[1]), unq(e[1]) not in nopar))      # the option belongs to the test (its path), wherever it is given
         if mode == 'canvas' and e[0] == b'step':
             cfgd.append((unq(e[1]), b'parallel' in e[2:]))
-    return gpar, cfgd
+            cmd, k = [], 2
+            while k < len(e):
+                if e[k] == b'command' and k + 1 < len(e) and e[k + 1] == b'{':
+                    end = e.index(b'}', k)
+                    cmd = [unq(t) for t in e[k + 2:end]]
+                    k = end
+                k += 1
+            cmds.append(b'\0'.join(cmd))
+    return gpar, cfgd, cmds
+
+
+FIXED = {'robsd-regress': ([b'env', b'pkg-add', b'cvs', b'patch', b'obj', b'mount'], [b'umount', b'revert', b'pkg-del', b'dmesg', b'end']),
+         'canvas': ([], [b'end'])}
+WS = re.compile(rb'[ \t\n\r\x0b\x0c]')
+
+
+def expected_positions(case):
+    """the schedule the property text demands for the configured entries, written here from the manual pages and the
+    property (NOT from the model): [(name, what it runs)] - fixed steps up to mount, the tests that run in parallel in
+    configuration order, the others in configuration order, the fixed rest; canvas: the steps as written, then end.
+    "what it runs" identifies the command: ('fixed', name) / ('test', path) / ('step', command as written)."""
+    mode = case['mode']
+    if mode not in FIXED or 'cfgd' not in case:
+        return None
+    cf = [(bytes.fromhex(n), p) for n, p in case['cfgd']]
+    pre, post = FIXED[mode]
+    if mode == 'robsd-regress':
+        if case.get('gpar', True):
+            mid = [n for n, p in cf if p] + [n for n, p in cf if not p]
+        else:
+            mid = [n for n, p in cf]
+        return [(n, ('fixed', n)) for n in pre] + [(n, ('test', n)) for n in mid] + [(n, ('fixed', n)) for n in post]
+    cmds = case.get('cmds')
+    return [(n, ('step', cmds[i] if cmds else '#%d' % i)) for i, (n, _) in enumerate(cf)] + [(n, ('fixed', n)) for n in post]
+
+
+def unreachable_positions(case):
+    """PREDICATE ON THE CASE for the known finding listed-step-unreachable: positions (0-based) whose name occurs EARLIER
+    in the same schedule on a step that runs something else - the runner takes the first step of a name, so no argument
+    makes it execute this position.  (The same test path written twice, or robsd's second env, runs the same command
+    and is not in the class.)"""
+    pos = expected_positions(case)
+    out = []
+    for i, (n, what) in enumerate(pos or []):
+        if any(m == n and w != what for m, w in pos[:i]):
+            out.append((i, n))
+    return out
+
+
+def whitespace_names(case):
+    """PREDICATE ON THE CASE for the known finding listing-name-with-white-space: configured names holding a blank, a tab
+    or a newline"""
+    return [bytes.fromhex(nm) for nm, _ in case.get('cfgd', []) if WS.search(bytes.fromhex(nm))]
 
 
 def gen_case(rng, g):
@@ -89,13 +132,38 @@ def gen_case(rng, g):
             if e[0] in (b'regress', b'step') and rng.random() < 0.5:
                 e[1] = conf_gen.q(rng.choice([b'a b', b'c parallel', b'x\n7 y', b'tab\tname']))
                 break
-    if rng.random() < 0.12:
+    r = rng.random()
+    if r < 0.12:
         case['kind'], text = g.corrupt(mode, ents, st)
     else:
+        if r < 0.22:
+            # ACCEPTED CONFIGURATIONS WITHOUT A SCHEDULE (or with one that needs a look at the environment): a command of
+            # the schedule that does not interpolate makes config_get_steps fail - robsd-step -L must print nothing and
+            # exit 1 (SchedDefs.L_steps_failed, C10_listing_exists_iff).  `certain` = the token cannot render whatever
+            # the environment: the expectation "no schedule" is then known from the case alone.
+            certain = [b'${nope}', b'$', b'a${', b'${}', b'$x', b'x${nope}y']
+            maybe = [b'${builddir}', b'x${rdomain}', b'${tmp-dir}', b'${robsddir}/e']
+            tok = rng.choice(certain) if rng.random() < 0.75 else rng.choice(maybe)
+            # (canvas takes no script from ${exec-dir}: its end step runs /dev/null)
+            where = 'entry' if mode == 'canvas' else rng.choice(['execdir', 'entry', 'entry'] if mode == 'robsd-regress' else ['execdir'])
+            if where == 'entry':
+                es = [e for e in ents if e[0] in (b'regress', b'step')]
+                e = rng.choice(es)
+                if e[0] == b'regress':
+                    e[1] = conf_gen.q(rng.choice([b'', b'bin/']) + tok)           # the test path is an argument of its command
+                else:
+                    k = len(e) - 1 - e[::-1].index(b'command')                     # the last command given is the one in force
+                    e.insert(k + 2, conf_gen.q(tok))                               # one more argument of the step's command
+            else:
+                case['execdir'] = (rng.choice([b'@R@/exec/', b'/']) + tok).hex()   # every script path starts with ${exec-dir}
+            if tok in certain:
+                case['noschedule'] = '%s in %s' % (tok.decode(), where)
         text = g.render(ents, plain=rng.random() < 0.3)
-        gpar, cfgd = configured(mode, ents)
+        gpar, cfgd, cmds = configured(mode, ents)
         case['gpar'] = gpar
         case['cfgd'] = [[n.hex(), p] for n, p in cfgd]
+        if mode == 'canvas':
+            case['cmds'] = [c.hex() for c in cmds]
     case['text'] = text.hex()
     return case
 
@@ -108,6 +176,39 @@ def parse_listing(out):
             return None
         lines.append((int(m.group(1)), m.group(2), bool(m.group(3))))
     return lines
+
+
+def parse_listing_guided(out, names):
+    """for configurations whose names hold white space: split the listing into (number, name, flag) knowing the SET of
+    names that can occur (configured ones and the fixed ones) - not their order, which is what the oracle judges.  None
+    when the bytes are no sequence of lines "<number> <one of the names>[ parallel]"."""
+    names = sorted(set(names), key=len, reverse=True)
+
+    def rec(p, depth):
+        if p == len(out):
+            return []
+        m = re.match(rb'(\d+) ', out[p:p + 24])
+        if not m or depth > 400:
+            return None
+        q_ = p + m.end()
+        for n in names:
+            if out.startswith(n, q_):
+                for par in (b' parallel', b''):
+                    if out.startswith(par + b'\n', q_ + len(n)):
+                        r = rec(q_ + len(n) + len(par) + 1, depth + 1)
+                        if r is not None:
+                            return [(int(m.group(1)), n, bool(par))] + r
+        return None
+    return rec(0, 0)
+
+
+def parser_for(case):
+    ws = whitespace_names(case)
+    if not ws:
+        return parse_listing
+    pre, post = FIXED.get(case['mode'], ([], []))
+    names = [bytes.fromhex(nm) for nm, _ in case.get('cfgd', [])] + pre + post
+    return lambda out: parse_listing_guided(out, names)
 
 
 def run_list(world, case, conf, off):
@@ -157,7 +258,8 @@ def per_case(world, case, offsets_all):
     obs = {'conf': conf, 'lists': [(None, full)], 'execs': []}
     # is the configuration itself accepted?  (a path-less "invalid substitution" can come from either stage)
     obs['accepted'] = cc.run_config(world, dict(case, vars=[]), conf, b'')[0] == 0
-    lines = parse_listing(full[1]) if full[0] == 0 else None
+    parse = parser_for(case)
+    lines = parse(full[1]) if full[0] == 0 else None
     obs['lines'] = lines
     n = len(lines) if lines else 3
     if offsets_all:
@@ -169,11 +271,6 @@ def per_case(world, case, offsets_all):
         obs['lists'].append((o, run_list(world, case, conf, o)))
     if lines:
         seen = []
-        cfgn = [bytes.fromhex(nm) for nm, _ in case.get('cfgd', [])]
-        if any(b'\n' in n or n.endswith(b' parallel') for n in cfgn):
-            # the lines do not determine the names (findings/C10_name_collisions.md): hand the configured names to the runner
-            lines = [(k, nm, p) for k, nm, p in lines if nm in REGRESS_FIXED] + [(0, n, False) for n in cfgn]
-            obs['lines'] = None
         for _, name, _ in lines:
             if name not in seen and b'\0' not in name:
                 seen.append(name)
@@ -205,7 +302,7 @@ def evaluate(ctx, cases, res, world=None, offsets_all=False):
     for ci, ob in enumerate(allobs):
         text = hexs(world.sub(bytes.fromhex(cases[ci]['text'])))
         for off, _ in ob['lists']:
-            questions.append((ci, ['list', cases[ci]['mode'], text, '!' if off is None else hexs(off)]))
+            questions.append((ci, ['listv', cases[ci]['mode'], text, '!' if off is None else hexs(off)]))
         for name, tr, _ in ob['execs']:
             questions.append((ci, ['resolve', cases[ci]['mode'], text, '1' if tr else '0', hexs(name)]))
     answers, _ = cc.driver_rounds(world, drv, questions, cases, lambda pre, env: ' '.join(pre + env))
@@ -254,7 +351,8 @@ def evaluate(ctx, cases, res, world=None, offsets_all=False):
             # independent of the model: the stub scripts print their arguments (the last one is the step name), the
             # literal canvas commands print the position of their step
             want = None
-            if out.startswith(b'stub ') and rc == 0 and b'\n' not in name:
+            if out.startswith(b'stub ') and rc == 0 and b'\n' not in name and b'$' not in name:
+                # (a name with a reference reaches the script rendered, like every other argument: C06)
                 want = name
                 got = out[:-1].split(b' ', 2)[2] if out.count(b' ') >= 2 else b''
             elif case.get('literal_cmds') and 'cfgd' in case and rc == 0 and out.startswith(b'STEP'):
@@ -268,49 +366,65 @@ def evaluate(ctx, cases, res, world=None, offsets_all=False):
                 res.oracle_failures.append({'case': case, 'signature': 'runner-died', 'what': 'robsd-exec %r terminated with status %d' % (name, rc)})
             argv = [common.unhex(x) for x in a[2:]]
             if not argv:
-                # resolved, but nothing left to execute: execvp(NULL, ...) in the child
-                res.oracle_failures.append({'case': case, 'signature': 'listed-step-empty-command',
-                                            'what': 'step %r is listed and resolves to an empty command (all arguments interpolate to nothing); robsd-exec exits %d' % (name, rc)})
-                if rc == 0:
-                    dis('exec %r' % name, 'empty command', 'rc=0')
+                # resolved, but nothing left to execute.  Since /repo 8e76449 step_exec refuses the empty vector with a
+                # diagnostic (theorem C10_listed_empty_command_refused: status 1, nothing forked); before, the forked child
+                # called execvp(NULL, ...) and died (139 on glibc).  Anything but the refusal is the old finding.
+                res.count('listed step with an empty command')
+                if not (rc == 1 and out == b'' and err.endswith(b': empty step command\n')):
+                    res.oracle_failures.append({'case': case, 'signature': 'listed-step-empty-command',
+                                                'what': 'step %r is listed and resolves to an empty command (all arguments interpolate to nothing); '
+                                                        'robsd-exec exits %d with %r instead of refusing it ("empty step command", status 1)'
+                                                        % (name, rc, err[-80:])})
+                    dis('exec %r' % name, 'rc=1 empty step command', 'rc=%d %r' % (rc, err[-80:]))
                 continue
             erc, eout = exp[(ci, answers[qi - 1])]
             if (erc, eout) != (rc, out) and not (erc != 0 and rc != 0 and eout == out):
                 dis('exec %r trace=%s' % (name, tr), 'rc=%d out=%r argv=%r' % (erc, eout[:80], argv), 'rc=%d out=%r' % (rc, out[:80]), err[-200:].decode('latin1'))
         # oracle on the implementation's listings
         lines = ob['lines']
-        ambiguous = False
-        wsnames = [bytes.fromhex(nm) for nm, _ in case.get('cfgd', []) if re.search(rb'\s', bytes.fromhex(nm))]
-        if fullrc == 0 and wsnames:
+        parse = parser_for(case)
+        full_out = ob['lists'][0][1][1]
+        # ---- accepted configurations without a schedule (known from the case alone: a command cannot render)
+        if case.get('noschedule') and ob['accepted']:
+            res.count('accepted, no schedule: ' + case['noschedule'].split(' in ')[1])
+            res.nontrivial.add(hashlib.sha1((case['mode'] + case['text'] + case.get('execdir', '')).encode()).hexdigest())
+            for off, (rc, out, err) in ob['lists']:
+                if off is not None and classify_list(rc, out, err, True) == 'invalid':
+                    continue
+                if rc == 0 or out != b'' or b'invalid substitution' not in err:
+                    res.oracle_failures.append({'case': case, 'signature': 'listed-although-a-command-does-not-render',
+                                                'what': 'a command of the schedule cannot be interpolated (%s), yet robsd-step -L%s exits %d and prints %r'
+                                                        % (case['noschedule'], '' if off is None else ' -o ' + off.decode('latin1'), rc, out[:60])})
+                    break
+        elif fullrc != 0 and ob['accepted']:
+            res.count('accepted, no schedule (decided by the environment)')
+            if full_out != b'':
+                res.oracle_failures.append({'case': case, 'signature': 'partial-listing-on-failure',
+                                            'what': 'robsd-step -L exits %d and still prints %r' % (fullrc, full_out[:60])})
+        # ---- KNOWN FINDING listing-name-with-white-space, by a predicate on the CASE
+        wsnames = whitespace_names(case)
+        if fullrc == 0 and wsnames and lines and any(nm == wsnames[0] for _, nm, _ in lines):
             # "<number> <name>[ parallel]" does not determine the step: util.sh reads the line back with
             # `read -r _step _name _parallel`
-            propose(res, 'C10', {'case': case, 'signature': 'listing-name-with-white-space',
-                                 'what': 'the accepted configuration lists a step named %r; the line format "N name[ parallel]" of robsd-step -L '
-                                         'is read back word by word (name %r)' % (wsnames[0], wsnames[0].split()[0] if wsnames[0].split() else b'')})
-            if any(b'\n' in n or n.endswith(b' parallel') for n in wsnames):
-                lines, ambiguous = None, True          # the lines no longer determine (number, name, flag): nothing below applies
-        if fullrc == 0 and lines and 'cfgd' in case:
-            # a listed position that no invocation of the runner can reach: its name occurs earlier with another command
-            # (decided from what was configured, independently of the model)
-            cnames = [bytes.fromhex(nm) for nm, _ in case['cfgd']]
-            unreachable = None
-            if case['mode'] == 'robsd-regress':
-                hit = [n for n in cnames if n in REGRESS_FIXED]
-                if hit:
-                    unreachable = 'regress test %r is named like a fixed step' % hit[0]
-            elif case['mode'] == 'canvas':
-                if b'end' in cnames:
-                    unreachable = 'a configured step is called end like the synthetic last step'
-                elif case.get('literal_cmds') and len(set(cnames)) < len(cnames):
-                    unreachable = 'two configured steps with different commands share the name %r' % [n for n in cnames if cnames.count(n) > 1][0]
-            if unreachable:
-                listed = [nm for _, nm, _ in lines]
-                if len(set(listed)) < len(listed):
-                    propose(res, 'C10', {'case': case, 'signature': 'listed-step-unreachable',
-                                         'what': unreachable + ': robsd-step -L lists both positions, robsd-exec runs the first one for either name'})
-                else:
-                    res.oracle_failures.append({'case': case, 'signature': 'configured-step-not-listed',
-                                                'what': unreachable + ', but the listing does not show the name twice: %r' % listed[:20]})
+            n0 = wsnames[0]
+            res.oracle_failures.append({'case': case, 'signature': 'listing-name-with-white-space',
+                                        'what': 'the accepted configuration lists a step named %r; the line format "N name[ parallel]" of robsd-step -L '
+                                                'is read back word by word (name %r)' % (n0, n0.split()[0] if n0.split() else b'')})
+        # ---- KNOWN FINDING listed-step-unreachable, by a predicate on the CASE
+        unreach = unreachable_positions(case) if fullrc == 0 else []
+        if unreach and lines:
+            i0, n0 = unreach[0]
+            listed = [nm for _, nm, _ in lines]
+            first = listed.index(n0) if n0 in listed else -1
+            if 0 <= first < i0 < len(listed) and listed[i0] == n0:
+                res.oracle_failures.append({'case': case, 'signature': 'listed-step-unreachable',
+                                            'what': 'step %d of the listing is called %r like step %d, which runs something else: robsd-step -L '
+                                                    'lists both, robsd-exec runs step %d for that name' % (i0 + 1, n0, first + 1, first + 1)})
+            else:
+                res.oracle_failures.append({'case': case, 'signature': 'configured-step-not-listed',
+                                            'what': 'the configuration has %r at position %d after an earlier step of that name, but the listing does not '
+                                                    'show it there: %r' % (n0, i0 + 1, listed[:20])})
+        ambiguous = False
         if fullrc == 0 and lines is None and not ambiguous:
             res.oracle_failures.append({'case': case, 'signature': 'listing-unparsable', 'what': 'robsd-step -L printed lines not of the form "N name[ parallel]"'})
         if lines is not None:
@@ -325,7 +439,7 @@ def evaluate(ctx, cases, res, world=None, offsets_all=False):
                     if rc == 0 and off.isdigit() and int(off) > len(lines):
                         res.oracle_failures.append({'case': case, 'signature': 'offset-beyond-end-lists', 'what': 'offset %s beyond the %d steps prints %r' % (off.decode(), len(lines), out[:60])})
                     continue
-                sub = parse_listing(out) if rc == 0 else None
+                sub = parse(out) if rc == 0 else None
                 if sub is None:
                     res.oracle_failures.append({'case': case, 'signature': 'offset-suffix', 'what': 'offset %s of %d steps: exit %d, output %r' % (off.decode(), len(lines), rc, out[:60])})
                     continue
@@ -349,14 +463,19 @@ def evaluate(ctx, cases, res, world=None, offsets_all=False):
 
 
 def load_corpus():
-    return [json.load(open(p)) for p in sorted(glob.glob(os.path.join(common.VERIF, 'corpus', 'C10', '*.json')))]
+    files = sorted(glob.glob(os.path.join(common.VERIF, 'corpus', 'C10', '*.json')))
+    if not files:
+        raise common.BuildFailure('corpus/C10 is missing or empty: the cases of the repaired and known findings would not run')
+    return [json.load(open(p)) for p in files]
 
 
 def run(ctx, n=None):
     res = common.Result()
     res.rule = ('configurations of the five modes derived from the documented grammar, three in eight robsd-regress with 1-6 tests and any mix of '
                 'no-parallel / parallel yes|no, two in eight canvas step lists; one regress configuration in ten with a test named like a fixed '
-                'step, a few names with blanks / a newline / ending in " parallel"; about one in eight corrupted; full listing, offsets 1,2,N/2,N-1,N,N+1,N+4 '
+                'step, a few names with blanks / a newline / ending in " parallel"; one in ten accepted configurations with a command that does not '
+                'interpolate (${nope}, a lone $, ... in a test path, in a canvas command or in EXECDIR: no schedule) or that needs the environment '
+                '(${builddir}, ${rdomain}); about one in eight corrupted; full listing, offsets 1,2,N/2,N-1,N,N+1,N+4 '
                 '(every offset 1..N+2 in the thorough tier), 0, 2^32, INT_MAX, non-numeric; every distinct listed name executed through robsd-exec '
                 'against stub scripts; non-trivial = a listed regress or canvas configuration; distinct by content hash')
     n = n or ctx.budget(220, 6000)
